@@ -285,6 +285,13 @@ class ComplexS(metaclass = Singleton):
                 self._sequence = seq
                 self._structure = sst
                 self._turns = wrap(value, tot)
+                # Data initialized on demand describes the old rotation.
+                self._strand_table = None
+                self._pair_table = None
+                self._loop_index = None
+                self._exterior_domains = None
+                self._enclosed_domains = None
+                self._exterior_loops = None
                 break
         else:
             raise ObjectInitError('Something went terribly wrong when rotating the complex.')
